@@ -606,6 +606,13 @@ class G:
                 vs.append(mk(len(vs), r.randrange(1, 3), []))
             if self.pr("x", 0.3):
                 vs.insert(r.randrange(len(vs) + 1), Variant(f"U{len(vs)}", "unit", [], []))
+            if len(vs) > 2 and self.pr("variant_stop_in_run", 0.0):
+                # a variant-level stop_repeat (lone, or closing a variant-level repeat block) on a variant inside the payload-level
+                # run: the two levels keep separate states, the payload-level run goes on
+                k = r.randrange(1, len(vs) - 1)
+                vs[k].attrs.append(Instr("stop_repeat", None, tag=("rep", None)))
+                if self.pr("x", 0.5):
+                    vs[0].attrs += [Instr("repeat", self.ch(["type_hint", "map", None]), tag=("rep", None)), Instr("type_hint", "as " + ("{}" if vs[0].shape == "tuple" else "()"), tag=("th", None))]
         if not prim and len(vs) >= 2 and self.pr("variant_repeat_run", 0.0):
             # a deliberate run: one variant opens `repeat` and carries something repeatable, later variants opt out / stop
             for v in vs:
@@ -885,7 +892,7 @@ PROFILES = {
                      "multi_instr": 0.7, "fallible": 0.4, "member_instr": 0.3},
     "repeat": {"max_fields": 6, "min_fields": 2, "member_repeat": 0.35, "member_instr": 0.5, "ghost_field": 0.15, "max_variants": 4, "variant_map": 0.3,
                "trait_repeat": 0.4, "vars": 0.3, "update": 0.2, "multi_instr": 0.6, "type_hint": 0.2, "variant_repeat_run": 0.35,
-               "multi_cpart": 0.45, "dedicated": 0.4, "repeat_overlap": 0.5, "permeate_run": 0.15},
+               "multi_cpart": 0.45, "dedicated": 0.4, "repeat_overlap": 0.5, "permeate_run": 0.15, "variant_stop_in_run": 0.5},
     "multi-counterpart": {"multi_cpart": 1.0, "dedicated": 0.6, "member_instr": 0.6, "ghost_field": 0.2, "ghosts": 0.3, "where_clause": 0.3, "multi_instr": 0.5,
                           "fallible": 0.3, "variant_map": 0.4, "type_hint": 0.3, "variant_ghost": 0.15, "variant_ghosts": 0.1, "try_pair": 0.15, "child_ghosts_ded": 0.5, "type_hint_pair": 0.5},
     "generics": {"generics": 1.0, "generic_cpart": 0.7, "where_clause": 0.5, "max_fields": 2, "trailing_comma": 0.2, "multi_cpart": 0.3, "fallible": 0.3, "dedicated": 0.4},
